@@ -82,3 +82,15 @@ Check C03_premises_are_satisfiable :
                       mk_ccfg 7 [mk_icfg 2 [] []]]%N in
   sdes_wf c /\ sdes_calc c = Ok 32 /\ (N.of_nat 32 <= 262144)%N.
 Print Assumptions C03_premises_are_satisfiable.
+
+(* known finding D13: the size bound above is necessary for every configuration, not only for a witness *)
+Theorem C03_oversize_configurations_do_not_parse_back :
+  forall (c : sdes_cfg) (n : nat),
+    sdes_wf c -> sdes_calc c = Ok n -> (262144 < N.of_nat n)%N ->
+    exists e, typed_parse VSdes (rfc_sdes c) = Err e.
+Proof. exact sdes_oversize_rejected. Qed.
+Check C03_oversize_configurations_do_not_parse_back :
+  forall (c : sdes_cfg) (n : nat),
+    sdes_wf c -> sdes_calc c = Ok n -> (262144 < N.of_nat n)%N ->
+    exists e, typed_parse VSdes (rfc_sdes c) = Err e.
+Print Assumptions C03_oversize_configurations_do_not_parse_back.
